@@ -70,11 +70,15 @@ mod kani_c08 {
         assert!(ip::checksum::combine(&w[..n]) == r.finish(), "C08.combine: combine is end-around-carry addition");
     }
 
+    /// The contract of checksum::data as an executable function (its postcondition, discharged by c08_data_is_rfc1071):
+    /// callers are verified against this contract instead of the body (`#[kani::stub]`).
+    fn data_contract(d: &[u8]) -> u16 { let mut r = Ref::new(); r.bytes(d); r.finish() }
+
     fn any_v4() -> Ipv4Address { Ipv4Address::from_bits(kani::any()) }
     fn any_v6() -> Ipv6Address { Ipv6Address::from_bits(kani::any()) }
 
     // ---------------------------------------------------------------- emitted packets verify (independent verifier)
-    #[kani::proof] #[kani::unwind(24)]
+    #[kani::proof] #[kani::stub(crate::wire::ip::checksum::data, data_contract)] #[kani::unwind(24)]
     fn c08_emit_ipv4_header_verifies() {
         let repr = Ipv4Repr { src_addr: any_v4(), dst_addr: any_v4(), next_header: IpProtocol::from(kani::any::<u8>()), payload_len: kani::any::<u16>() as usize, hop_limit: kani::any() };
         kani::assume(repr.payload_len <= 65535 - 20); // tag: pre
@@ -86,7 +90,7 @@ mod kani_c08 {
         assert!(r.finish() == 0xffff, "C08.emit.ipv4: emitted IPv4 header verifies under the reference checksum");
     }
 
-    #[kani::proof] #[kani::unwind(24)]
+    #[kani::proof] #[kani::stub(crate::wire::ip::checksum::data, data_contract)] #[kani::unwind(24)]
     fn c08_emit_udp_v4_verifies() {
         let repr = UdpRepr { src_port: kani::any(), dst_port: kani::any() };
         let (src, dst) = (any_v4(), any_v4());
@@ -102,7 +106,7 @@ mod kani_c08 {
         assert!(buf[6] != 0 || buf[7] != 0, "C08.emit.udp: a computed checksum is never transmitted as zero");
     }
 
-    #[kani::proof] #[kani::unwind(40)]
+    #[kani::proof] #[kani::stub(crate::wire::ip::checksum::data, data_contract)] #[kani::unwind(40)]
     fn c08_emit_udp_v6_verifies() {
         let repr = UdpRepr { src_port: kani::any(), dst_port: kani::any() };
         let (src, dst) = (any_v6(), any_v6());
@@ -128,7 +132,7 @@ mod kani_c08 {
         }
     }
 
-    #[kani::proof] #[kani::unwind(40)]
+    #[kani::proof] #[kani::stub(crate::wire::ip::checksum::data, data_contract)] #[kani::unwind(40)]
     fn c08_emit_tcp_v4_verifies() {
         let pay: [u8; P] = kani::any();
         let n: usize = kani::any();
@@ -144,7 +148,7 @@ mod kani_c08 {
         assert!(r.finish() == 0xffff, "C08.emit.tcp4: emitted TCP/IPv4 segment verifies");
     }
 
-    #[kani::proof] #[kani::unwind(48)]
+    #[kani::proof] #[kani::stub(crate::wire::ip::checksum::data, data_contract)] #[kani::unwind(48)]
     fn c08_emit_tcp_v6_verifies() {
         let pay: [u8; P] = kani::any();
         let n: usize = kani::any();
@@ -160,7 +164,7 @@ mod kani_c08 {
         assert!(r.finish() == 0xffff, "C08.emit.tcp6: emitted TCP/IPv6 segment verifies");
     }
 
-    #[kani::proof] #[kani::unwind(24)]
+    #[kani::proof] #[kani::stub(crate::wire::ip::checksum::data, data_contract)] #[kani::unwind(24)]
     fn c08_emit_icmpv4_echo_verifies() {
         let pay: [u8; P] = kani::any();
         let n: usize = kani::any();
@@ -176,7 +180,7 @@ mod kani_c08 {
         assert!(r.finish() == 0xffff, "C08.emit.icmpv4: emitted ICMPv4 message verifies");
     }
 
-    #[kani::proof] #[kani::unwind(48)]
+    #[kani::proof] #[kani::stub(crate::wire::ip::checksum::data, data_contract)] #[kani::unwind(48)]
     fn c08_emit_icmpv6_echo_verifies() {
         let pay: [u8; P] = kani::any();
         let n: usize = kani::any();
@@ -194,7 +198,7 @@ mod kani_c08 {
     }
 
     // ---------------------------------------------------------------- enforcement: parse Ok => checksum verifies (independent verifier)
-    #[kani::proof] #[kani::unwind(28)]
+    #[kani::proof] #[kani::stub(crate::wire::ip::checksum::data, data_contract)] #[kani::unwind(28)]
     fn c08_parse_ipv4_enforces() {
         let buf: [u8; 24] = kani::any();
         if let Ok(p) = Ipv4Packet::new_checked(&buf[..]) {
@@ -228,11 +232,11 @@ mod kani_c08 {
             }
         }
     }
-    #[kani::proof] #[kani::unwind(40)] fn c08_parse_udp_v4_enforces() { c08_parse_udp(false, false) }
-    #[kani::proof] #[kani::unwind(48)] fn c08_parse_udp_v6_enforces() { c08_parse_udp(true, false) }
-    #[kani::proof] #[kani::unwind(48)] fn c08_parse_udp_v6_enforces_xk() { c08_parse_udp(true, true) }
+    #[kani::proof] #[kani::stub(crate::wire::ip::checksum::data, data_contract)] #[kani::unwind(40)] fn c08_parse_udp_v4_enforces() { c08_parse_udp(false, false) }
+    #[kani::proof] #[kani::stub(crate::wire::ip::checksum::data, data_contract)] #[kani::unwind(48)] fn c08_parse_udp_v6_enforces() { c08_parse_udp(true, false) }
+    #[kani::proof] #[kani::stub(crate::wire::ip::checksum::data, data_contract)] #[kani::unwind(48)] fn c08_parse_udp_v6_enforces_xk() { c08_parse_udp(true, true) }
 
-    #[kani::proof] #[kani::unwind(40)]
+    #[kani::proof] #[kani::stub(crate::wire::ip::checksum::data, data_contract)] #[kani::unwind(40)]
     fn c08_parse_tcp_v4_enforces() {
         let buf: [u8; 20 + P] = kani::any();
         let n: usize = kani::any();
@@ -248,7 +252,7 @@ mod kani_c08 {
         }
     }
 
-    #[kani::proof] #[kani::unwind(24)]
+    #[kani::proof] #[kani::stub(crate::wire::ip::checksum::data, data_contract)] #[kani::unwind(24)]
     fn c08_parse_icmpv4_enforces() {
         let buf: [u8; 8 + P] = kani::any();
         let n: usize = kani::any();
@@ -263,7 +267,7 @@ mod kani_c08 {
         }
     }
 
-    #[kani::proof] #[kani::unwind(48)]
+    #[kani::proof] #[kani::stub(crate::wire::ip::checksum::data, data_contract)] #[kani::unwind(48)]
     fn c08_parse_icmpv6_enforces() {
         let buf: [u8; 8 + P] = kani::any();
         let n: usize = kani::any();
